@@ -51,6 +51,8 @@ def gen_cases(tier, seed):
             cases.append({"t": "send", "size": size, "when": when, "other_entity": True})
     # the same receiver scenarios while another entity of the process has configured its own fault handler table
     cases += [dict(c, other_entity=True) for c in cases if c["t"] == "recv" and c["n"] <= 2 and c["L"] <= 2]
+    # the checksum type announced in the Metadata PDU differs from the default the receiver has configured for this sender
+    cases += [dict(c, mib_cks="crc32c" if c["cks"] == "crc32" else "crc32") for c in cases if c["t"] == "recv" and not c.get("other_entity") and c["n"] <= 2]
     return cases
 
 
@@ -59,6 +61,9 @@ def run_recv(case):
     cfg = {"mode": "unack", "closure": case["closure"], "cks": case["cks"], "size": 4 * n - 1, "seg": 4, "check_limit": L,
            "check_ivl_ms": IVL, "content": n + L, "fs": "mem"}
     obs = {}
+    if case.get("mib_cks"):
+        cfg["rc_at_dst"] = {"crc_type": case["mib_cks"]}
+        obs["recv_cases_metadata_checksum_type_differs_from_mib"] = 1
     with World(cfg) as w:
         D = w.D
         tc = prep.tx_conf(w)
@@ -301,4 +306,4 @@ def exhaustive(tier):
     return True
 
 
-REQUIRED = {"recv_cases": 500, "recv_success": 50, "recv_fault": 50, "send_cases": 6, "race_cases": 100, "cases_next_to_other_entity_with_own_fault_table": 50, "sender_check_limit_faults": 2, "send_cases_with_paced_link": 6, "expiries": 500}
+REQUIRED = {"recv_cases": 500, "recv_success": 50, "recv_fault": 50, "send_cases": 6, "race_cases": 100, "cases_next_to_other_entity_with_own_fault_table": 50, "sender_check_limit_faults": 2, "send_cases_with_paced_link": 6, "recv_cases_metadata_checksum_type_differs_from_mib": 50, "expiries": 500}
